@@ -553,8 +553,16 @@ func runBARRIER(c *Ctx) {
 				if _, isSt := ins.(*ssa.Store); isSt && len(sh.spawnsIn(fn)) == 0 && fn != F && fn != sh.waitFn {
 					safe = true // constructor initialising the pool before it is started
 				}
+				_, isStore := ins.(*ssa.Store)
+				if !safe && !isStore && mustHeldAt(ins) {
+					safe = true // an accessor of the cell that takes the mutex itself
+				}
+				if !safe && isStore && mustHeldAt(ins) {
+					c.Violation(fn, P.InstrPos(ins), "unsynchronised access of the error cell in flush", "the error cell is written outside the workers while queued writes may not have started: the workers skip a queued node write only because 'a store has already failed', so writing anything else into the cell leaves nodes unwritten that the walk already marked clean")
+					continue
+				}
 				if safe {
-					c.OK(P.InstrPos(ins), "(7) access of the error cell in "+ir.FuncName(fn), "after Wait / before the first go", false)
+					c.OK(P.InstrPos(ins), "(7) access of the error cell in "+ir.FuncName(fn), "after Wait / before the first go / mutex held", false)
 				} else {
 					c.Violation(fn, P.InstrPos(ins), "unsynchronised access of the error cell in flush", "the error cell is read or written while writers may still be running, without the mutex")
 				}
@@ -608,7 +616,7 @@ func runBARRIER(c *Ctx) {
 						for _, f := range ir.FactsAt(b) {
 							if tv, tnn, isNil := ir.NilTest(f.Cond); isNil {
 								// "first error wins": the cell may be required to be still nil, never to be non-nil
-								if ld, ok := tv.(*ssa.UnOp); ok && ld.Op == token.MUL && isE(ld.X) && f.Truth == tnn {
+								if _, ok := sh.cellValue(tv, isE); ok && f.Truth == tnn {
 									return false
 								}
 								continue
@@ -828,7 +836,7 @@ func runBARRIER(c *Ctx) {
 		bad := ""
 		for _, f := range ir.FactsAt(call.Block()) {
 			if tv, _, isNil := ir.NilTest(f.Cond); isNil {
-				if ld, ok := tv.(*ssa.UnOp); ok && ld.Op == token.MUL && isE(ld.X) {
+				if _, ok := sh.cellValue(tv, isE); ok {
 					continue
 				}
 				bad = "a nil test of something other than the error cell"
@@ -907,14 +915,16 @@ func isLocalTo(key string, fn *ssa.Function) bool {
 // cell after the wait event, or the result of the waiting helper that returns
 // such a load.
 func (sh *flushShape) cellAfterWait(v ssa.Value, isE func(ssa.Value) bool) bool {
-	if ld, ok := v.(*ssa.UnOp); ok && ld.Op == token.MUL && isE(ld.X) {
+	if ld, ok := sh.cellValue(v, isE); ok {
 		if ld.Parent() == sh.waitFn && ir.Before(sh.waitIn, ld) {
 			return true
 		}
 		if ld.Parent() == sh.F && sh.wait != nil && ir.Before(sh.wait, ld) {
 			return true
 		}
-		return false
+		if _, direct := ld.(*ssa.UnOp); direct {
+			return false
+		}
 	}
 	// result of the waiting helper
 	var call *ssa.Call
@@ -928,7 +938,7 @@ func (sh *flushShape) cellAfterWait(v ssa.Value, isE func(ssa.Value) bool) bool 
 		for _, r := range ir.Returns(sh.waitFn) {
 			okRet := false
 			for _, res := range r.Results {
-				if ld, ok := res.(*ssa.UnOp); ok && ld.Op == token.MUL && isE(ld.X) && ir.Before(sh.waitIn, ld) {
+				if ld, ok := sh.cellValue(res, isE); ok && ir.Before(sh.waitIn, ld) {
 					okRet = true
 				}
 			}
@@ -1075,4 +1085,60 @@ func mayHeldAt(ins ssa.Instruction) bool {
 		}
 	}
 	return step(ins.Block(), in[ins.Block().Index], ins)
+}
+
+// cellValue: v is the value of the error cell: a load of it, or the result of a getter of the flush machinery —
+// a helper in scope (other than flush itself) whose every return yields a load of the cell. at is the load, or
+// the call of the getter (the moment the cell is read, for ordering against Wait).
+func (sh *flushShape) cellValue(v ssa.Value, isE func(ssa.Value) bool) (at ssa.Instruction, ok bool) {
+	if ld, ok := v.(*ssa.UnOp); ok && ld.Op == token.MUL && isE(ld.X) {
+		return ld, true
+	}
+	call, isCall := v.(*ssa.Call)
+	if !isCall {
+		return nil, false
+	}
+	h := calleeOrClosure(&call.Call)
+	if h == nil || h == sh.F || !sh.scope[h] || h.Blocks == nil {
+		return nil, false
+	}
+	n := 0
+	for _, r := range ir.Returns(h) {
+		if len(r.Block().Preds) == 0 && r.Block().Index != 0 {
+			continue // recover block
+		}
+		if len(r.Results) != 1 {
+			return nil, false
+		}
+		ld, ok := ir.ResolveCell(r.Results[0]).(*ssa.UnOp) // (a deferred Unlock spills the result)
+		if !ok || ld.Op != token.MUL || !isE(ld.X) {
+			return nil, false
+		}
+		n++
+	}
+	if n == 0 {
+		return nil, false
+	}
+	return call, true
+}
+
+// mustHeldAt: on every path to ins a sync.Mutex Lock is not followed by an Unlock.
+func mustHeldAt(ins ssa.Instruction) bool {
+	return ir.FlowHeld(ins,
+		func(i ssa.Instruction) bool {
+			ci, ok := i.(*ssa.Call)
+			if !ok {
+				return false
+			}
+			_, ok = syncCall(ci, "Mutex", "Lock")
+			return ok
+		},
+		func(i ssa.Instruction) bool {
+			ci, ok := i.(*ssa.Call)
+			if !ok {
+				return false
+			}
+			_, ok = syncCall(ci, "Mutex", "Unlock")
+			return ok
+		})
 }
